@@ -198,3 +198,54 @@ Theorem mct_bracket_partial : forall vmin vmax bins my_bin,
   vmin <= mct_value vmin vmax bins my_bin /\ mct_value vmin vmax bins my_bin <= vmax.
 Proof. exact mct_bracket_partial_lemma. Qed.
 Print Assumptions mct_bracket_partial.
+
+(* ---------------------------------------------------------------- S1: structure of the per-object and adaptive passes *)
+From Centro Require Import Spec.ThresholdStruct Model.AdaptiveGeom Proofs.ThresholdStructProofs.
+
+(* cropping the whole image with a mask that vanishes outside a sub-rectangle = cropping the sub-rectangle *)
+Theorem crop_window_equiv : forall (A : Type) H W (img : image A) (m : bmask) r0 c0 h w,
+  (r0 + h <= H)%nat -> (c0 + w <= W)%nat ->
+  (forall r c, (r < H)%nat -> (c < W)%nat -> m r c = true -> (r0 <= r < r0 + h)%nat /\ (c0 <= c < c0 + w)%nat) ->
+  crop A H W img m = crop A h w (shift r0 c0 img) (shift r0 c0 m).
+Proof. exact crop_window. Qed.
+Print Assumptions crop_window_equiv.
+
+(* the object loop of get_per_object_threshold as written — np.ones fill, one masked store per extent, the
+   loop index being the label — gives at EVERY pixel what the checker demands of the implementation:
+   G(image[mask & (labels == l)]) on object l, the fill elsewhere; for any G, any dtype conversion, any list
+   of extents with the find_objects contract (entry (i, extent) for every label i present, the extent
+   containing every pixel labelled i) *)
+Theorem per_object_loop_meets_spec : forall (A : Type) (G : list A -> Q) H W labels mask img cast fill objs,
+  Forall (extent_ok H W labels) objs ->
+  (forall r c, (r < H)%nat -> (c < W)%nat -> (0 < labels r c)%Z -> exists blk, In (labels r c, blk) objs) ->
+  forall r c, (r < H)%nat -> (c < W)%nat ->
+  po_loop A G labels mask img cast objs (fun _ _ => cast fill) r c
+  = per_object_pixel A G H W labels mask img cast fill r c.
+Proof. exact po_loop_spec_lemma. Qed.
+Print Assumptions per_object_loop_meets_spec.
+
+(* soundness of the two structural checkers run on the implementation's raw arrays *)
+Theorem check_per_object_sound : forall cast fill tab pixels,
+  check_per_object cast fill tab pixels = true ->
+  Forall (fun p : Z * bool * Q =>
+            exists e, po_expected cast fill tab (fst (fst p)) (snd (fst p)) = Some e /\ snd p == e) pixels.
+Proof. exact check_per_object_sound_lemma. Qed.
+Print Assumptions check_per_object_sound.
+
+Theorem check_blocks_sound : forall got exp, all_eq got exp = true -> Forall2 Qeq got exp.
+Proof. exact all_eq_sound_lemma. Qed.
+Print Assumptions check_blocks_sound.
+
+(* adaptive block partition, in the code's binary64 arithmetic (Finite: image sides 2..100, every window with
+   at least two blocks): boundaries start at 0, never decrease, number nblocks+1, the last one is the image
+   side or ONE LESS, and the spline's output abscissae end at the last boundary *)
+Theorem adaptive_axis_wellformed_finite : forall size win,
+  In (size, win) (sizes_upto 100) -> axis_wellformed size win = true.
+Proof. exact adaptive_axis_wellformed_forall. Qed.
+Print Assumptions adaptive_axis_wellformed_finite.
+
+(* "the blocks tile the whole image" does NOT hold of the code: 59 pixels, window 2 -> 29 blocks ending at 58 *)
+Theorem adaptive_blocks_tile_refuted :
+  exists size win, geom_ok size size win = true /\ last (ax_bounds (axis_geom size win)) 0%Z = (size - 1)%Z.
+Proof. exact adaptive_blocks_tile_refuted_lemma. Qed.
+Print Assumptions adaptive_blocks_tile_refuted.
